@@ -27,6 +27,7 @@ type arrival struct {
 	wake chan int
 	sel  int  // >0: the goroutine asks for a choice in [0, sel) (rewritten select)
 	exit bool // goroutine started through Sim.Go finished
+	tick bool // timer wake-up for the scheduler, no goroutine attached
 }
 
 // Task is a goroutine known to the scheduler.
@@ -224,7 +225,21 @@ func (s *Sim) AddEnv(e Env) {
 	s.envPrio = append(s.envPrio, 0)
 }
 
+// WakeAfter makes sure the scheduler re-evaluates its candidates after d of
+// simulated time even if no goroutine becomes runnable then (delayed
+// environment actions).
+func (s *Sim) WakeAfter(d time.Duration) {
+	time.AfterFunc(d, func() {
+		if !s.free.Load() {
+			s.arrivals <- arrival{tick: true}
+		}
+	})
+}
+
 func (s *Sim) admit(a arrival) {
+	if a.tick {
+		return
+	}
 	t := s.tasks[a.gid]
 	if a.exit {
 		if t != nil {
@@ -292,7 +307,7 @@ func (s *Sim) drain() {
 		return batch[i].gid < batch[j].gid
 	})
 	for _, a := range batch {
-		if s.tasks[a.gid] == nil && !a.exit {
+		if s.tasks[a.gid] == nil && !a.exit && !a.tick {
 			newSites[a.name+"|"+a.site]++
 			if newSites[a.name+"|"+a.site] > 1 {
 				s.AmbigSpawn++
